@@ -12,7 +12,7 @@ use happylock::poisonable::Poisonable;
 use crate::shapes::{Node, M, R};
 use crate::vraw::{Ans, Decision, Kind};
 
-#[derive(Clone, Debug, PartialEq)]
+#[derive(Clone, Debug, PartialEq, Eq)]
 pub enum Expr {
 	M(usize),
 	R(usize),
@@ -175,6 +175,8 @@ pub enum Stmt {
 	Dbg(usize),
 	IsPoisoned(usize),
 	ClearPoison(usize),
+	/// `try_new` of a boxed (B) / ref (F) / retrying (T) collection over the expression
+	TryNew(u8, Expr),
 }
 
 impl Step {
@@ -217,6 +219,7 @@ impl Stmt {
 			Stmt::Dbg(c) => format!("dbg:{c}"),
 			Stmt::IsPoisoned(c) => format!("isp:{c}"),
 			Stmt::ClearPoison(c) => format!("clr:{c}"),
+			Stmt::TryNew(k, e) => format!("trynew:{}:{}", *k as char, e.text()),
 			Stmt::Ses(s) => format!(
 				"ses:{}:{}:{}:{}:{}:{}",
 				s.coll,
@@ -252,6 +255,7 @@ impl Stmt {
 			["dbg", c] => Stmt::Dbg(c.parse().ok()?),
 			["isp", c] => Stmt::IsPoisoned(c.parse().ok()?),
 			["clr", c] => Stmt::ClearPoison(c.parse().ok()?),
+			["trynew", k, e] => Stmt::TryNew(*k.as_bytes().first()?, parse_expr_str(e)?),
 			["ses", c, a, m, k, b, e] => Stmt::Ses(Session {
 				coll: c.parse().ok()?,
 				api: match *a {
@@ -438,7 +442,7 @@ impl Case {
 		}
 	}
 
-	fn build_expr(&self, e: &Expr, b: &mut Built) -> Node {
+	pub fn build_expr(&self, e: &Expr, b: &mut Built) -> Node {
 		match e {
 			Expr::M(i) => Node::M(&b.slots[self.addr[*i]].m),
 			Expr::R(i) => Node::R(&b.slots[self.addr[*i]].r),
